@@ -430,7 +430,9 @@ func c14run(w *report.W) {
 		}
 		k, _ := findKey("EdDSA#0")
 		mk := func() *pipeline.CommandStep { cs, _ := stepFromTree(sb.Step); return cs }
-		other := func() *pipeline.CommandStep { return &pipeline.CommandStep{Command: "other", Env: map[string]string{"O": "o"}} }
+		other := func() *pipeline.CommandStep {
+			return &pipeline.CommandStep{Command: "other", Env: map[string]string{"O": "o"}}
+		}
 		forests := []struct {
 			name  string
 			steps pipeline.Steps
